@@ -173,7 +173,7 @@ class Projector(object):
         for y in e.walk():
             if y.k == 'Index':
                 b = strip(y.c[0])
-                out.add('%s[%s]' % (self.text(b), self.text(y.c[1])))
+                out.add('%s[%s]' % (self.text(b), _INCDEC.sub(r'\2', self.text(y.c[1]))))
             elif y.k == 'Call' and (callee_name(y) or '') not in CPLX_HELPERS and callee_name(y) not in MESSAGE_CALLS:
                 it = self.classify(y)
                 if it is not None and it[0] == 'C':
@@ -344,6 +344,11 @@ class Projector(object):
                 continue
             if it[0] == 'F':
                 add_f(it[1])
+                # x[i++] -= t  is  x[i] -= t; i += 1
+                for y in s.walk():
+                    if y.k == 'Unary' and y.a['op'] in ('++', '--', 'post++', 'post--') and strip(y.c[0]).k == 'Ref' and not is_float_type(strip(y.c[0]).t) \
+                            and strip(s) is not y:
+                        out.append(('I', '(%s += %d)' % (self.text(strip(y.c[0])), 1 if '+' in y.a['op'] else -1)))
             else:
                 out.append(it)
         return out
@@ -372,6 +377,7 @@ def _show(it):
     return ' '.join(str(x) for x in it)
 
 
+_INCDEC = re.compile(r'\((?:post)?(\+\+|--)(@?\w+)\)')
 _TRANS_TEST = re.compile(r'@?trans == TRANS\b|strncmp\(@?trans,"T",1\) == 0')
 _NOTRANS = re.compile(r'NOTRANS|"N"')
 _TOK = re.compile(r'@?[A-Za-z_][A-Za-z_0-9]*|\S')
